@@ -374,8 +374,8 @@ func (s *storage) Get(ctx context.Context, keys []Key) (*os.File, StorageMetadat
 			}
 			continue
 		}
-		if cl := sm.ResponseHeader.Get("content-length"); len(cl) > 0 {
-			if contentLength, err := strconv.Atoi(cl); err != nil && contentLength > 0 {
+		if cl := sm.ResponseHeader.Get("content-length"); len(cl) > 0 && key.method != "HEAD" {
+			if contentLength, err := strconv.Atoi(cl); err == nil && contentLength > 0 {
 				if int64(contentLength) != sm.FdSize {
 					s.logger.Error(fmt.Sprintf("Size on disk %v did not match HTTP header Content-Length %v. Deleting stored file.", sm.FdSize, contentLength))
 					err = os.Remove(fp)
@@ -1138,8 +1138,8 @@ func (sw *storageWriter) Close() error {
 		}
 	}
 
-	if cl := sw.responseHeader.Get("content-length"); len(cl) > 0 {
-		if contentLength, err := strconv.Atoi(cl); err != nil && contentLength > 0 {
+	if cl := sw.responseHeader.Get("content-length"); len(cl) > 0 && sw.key.method != "HEAD" {
+		if contentLength, err := strconv.Atoi(cl); err == nil && contentLength > 0 {
 			if int64(contentLength) != sw.writtenSize || int64(contentLength) != sizeOnDisk {
 				sw.log.Error(fmt.Sprintf("Written size %v did not match Content-Length header size %v. Deleting stored file.\n", sw.writtenSize, contentLength))
 				sw.Delete()
